@@ -135,6 +135,7 @@ class Ctx:
             return True
         if z3.is_false(c):
             return False
+        c = cond          # keep the literal as built: rewriting inside uninterpreted-function arguments breaks congruence
         self.solver.push()
         self.solver.add(c)
         r_t = timed_check(self.solver)
